@@ -103,11 +103,11 @@ Proof.
   - apply honoured_not_end. reflexivity.
 Qed.
 
-Lemma do_stmt_spec : forall t cn k m sees orc r l orc1 c,
-  do_stmt t cn k m sees orc = (r, l, orc1, c) ->
+Lemma do_stmt_spec : forall t cn k m sees dl orc r l orc1 c,
+  do_stmt t cn k m sees dl orc = (r, l, orc1, c) ->
   own t cn l /\ follows orc l orc1 /\ stmts_at k l /\ r <> SPanic.
 Proof.
-  intros t cn k m sees orc r l orc1 c H. unfold do_stmt in H. destruct m.
+  intros t cn k m sees dl orc r l orc1 c H. unfold do_stmt in H. destruct m.
   - destruct (drv t cn (CStmt k KExec) orc) as [[[[o v] b] l0] o1] eqn:E. inversion H; subst.
     destruct (drv_own_follows _ _ _ _ _ _ _ _ _ E) as [Ho Hf]. destruct (drv_stmt_at _ _ _ _ _ _ _ _ _ _ E) as [Hs _].
     repeat split; auto; try apply Hs. unfold res_of. destruct o; discriminate.
@@ -193,8 +193,8 @@ Proof.
   destruct a as [m withctx | | | | |].
   - destruct (sctxapi sc && withctx && canc); [exact (Hsil _ H)|].
     destruct done; [exact (Hsil _ H)|].
-    destruct (do_stmt t (sconn sc) k m (sctxapi sc && withctx) orc) as [[[r0 l0] o1] c0] eqn:E.
-    inversion H; subst. destruct (do_stmt_spec _ _ _ _ _ _ _ _ _ _ E) as (Ho & Hf & Hs & _).
+    destruct (do_stmt t (sconn sc) k m (sctxapi sc && withctx) (sdl sc) orc) as [[[r0 l0] o1] c0] eqn:E.
+    inversion H; subst. destruct (do_stmt_spec _ _ _ _ _ _ _ _ _ _ _ E) as (Ho & Hf & Hs & _).
     split; [exact Ho|]. split; [exact Hf|]. split; [discriminate|]. intros _. left. auto.
   - exact (Hsil _ H).
   - destruct (do_selfend_spec _ _ _ _ _ _ _ _ _ _ _ _ _ H) as (Ho & Hf & Hd & H1 & H2).
@@ -233,7 +233,7 @@ Definition begin_ok (b : logent) : Prop := ecall b = CBegin /\ eout b = OOk.
 
 (* what a refused call returns *)
 Definition refusal (sc : script) : err :=
-  if sdead sc then ECanceled else if negb (sbrk sc) then EUnavailable else ENoConn.
+  if sdead sc then ECtxDone (sdl sc) else if negb (sbrk sc) then EUnavailable else ENoConn.
 
 Definition nsteps (sc : script) : Z := Z.of_nat (length (ssteps sc)).
 
@@ -428,7 +428,7 @@ Proof.
     split; [|split; [constructor | split; [constructor | reflexivity]]].
     left. split; [reflexivity|]. split; [|reflexivity]. unfold let_through.
     destruct Hc as [-> | [[-> ->] | (-> & -> & ->)]]; reflexivity. }
-  destruct (sdead sc) eqn:Hd; [apply (Href ECanceled); auto; unfold refusal; rewrite Hd; reflexivity|].
+  destruct (sdead sc) eqn:Hd; [apply (Href (ECtxDone (sdl sc))); auto; unfold refusal; rewrite Hd; reflexivity|].
   destruct (sbrk sc) eqn:Hb; cbn [negb] in H;
     [|apply (Href EUnavailable); auto; unfold refusal; rewrite Hd, Hb; reflexivity].
   destruct (sopen sc) eqn:Ho; cbn [negb] in H;
